@@ -1,2 +1,3 @@
 import Sweep.Basic
 import Sweep.Checks
+import Sweep.Bits
